@@ -159,8 +159,9 @@ def oracleS (ds : DS) (flt : Fault) (sender recip : Bytes) (iout : Outcome) (iev
                  chk (traceOk ds.env id loc dom sender [] ievs) "wrong-identity-or-argv" ++
                  (if id.uid == 0 then chk (noExec ievs && iout != .exec && (flt != .none || iout == .exit QLX_ROOT)) "root-not-refused"
                   else if flt == .none then chk (iout == .exec) "assigned-user-not-run" else [])) ++
-            -- `C11_identity`: no failing call ⇒ the child does EXACTLY what the tables dictate (every call, in order, and the outcome)
-            (if flt == .none && !loc.contains NUL then chk ((ievs, iout) == specChild ds.env w sender loc dom) "child-differs-from-tables"
+            -- `C11_identity`: no failing call ⇒ the child does EXACTLY what the tables dictate (every identity-relevant call —
+            -- chdir, the qmail-getpw child's calls, setgroups, setgid, setuid, getuid, execv with argv — in order, and the outcome)
+            (if flt == .none && !loc.contains NUL then chk (childAsDictated ds.env w sender loc dom ievs iout) "child-differs-from-tables"
              else [])
         if ds.raw then
           -- a raw (corrupted/truncated) cdb: if reading it fails on the way to this address the delivery must be deferred
